@@ -139,16 +139,54 @@ theorem sparse_flattenLeft {A : T3 𝕜} {qd qa qb : List Int} (h : T3Wf A qd qa
 /-- the matrix `Q` reshaped to `(d0, d1, ·)` is block sparse when `Q` is -/
 theorem sparseT3_ofFlattenLeft {Q : Mat 𝕜} {qd qa qi : List Int} (hm : Q.m = qd.length * qa.length)
     (hn : Q.n = qi.length) (hsp : Sparse Q (QN.flatten2 qd qa) qi) :
-    T3Wf (T3.ofFlattenLeft Q qd.length qa.length).tab qd qa qi := by
+    T3Wf (T3.ofFlattenLeft Q qd.length qa.length) qd qa qi := by
   refine ⟨rfl, rfl, hn, ?_⟩
   intro s a b hs ha hb hne
   have hs' : s < qd.length := hs
   have ha' : a < qa.length := ha
   have hb' : b < Q.n := hb
-  rw [Env.t3_tab_f (T3.ofFlattenLeft Q qd.length qa.length) hs' ha' hb'] at hne
   have := hsp (s * qa.length + a) b (by rw [hm]; exact fused_lt hs' ha') hb' hne
   rw [flatten2_getD _ _ hs' ha'] at this
   omega
+
+/-! ## equality of tensors on in-range indices -/
+
+/-- same shape and same in-range entries -/
+structure T3Eqv (X Y : T3 𝕜) : Prop where
+  d0 : X.d0 = Y.d0
+  d1 : X.d1 = Y.d1
+  d2 : X.d2 = Y.d2
+  f : ∀ s a b, s < X.d0 → a < X.d1 → b < X.d2 → X.f s a b = Y.f s a b
+
+theorem T3Eqv.refl (X : T3 𝕜) : T3Eqv X X := ⟨rfl, rfl, rfl, fun _ _ _ _ _ _ => rfl⟩
+
+theorem T3Eqv.symm {X Y : T3 𝕜} (h : T3Eqv X Y) : T3Eqv Y X :=
+  ⟨h.d0.symm, h.d1.symm, h.d2.symm, fun s a b hs ha hb =>
+    (h.f s a b (by rw [h.d0]; exact hs) (by rw [h.d1]; exact ha) (by rw [h.d2]; exact hb)).symm⟩
+
+theorem T3Eqv.trans {X Y Z : T3 𝕜} (h : T3Eqv X Y) (h' : T3Eqv Y Z) : T3Eqv X Z :=
+  ⟨h.d0.trans h'.d0, h.d1.trans h'.d1, h.d2.trans h'.d2, fun s a b hs ha hb =>
+    (h.f s a b hs ha hb).trans (h'.f s a b (by rw [← h.d0]; exact hs) (by rw [← h.d1]; exact ha)
+      (by rw [← h.d2]; exact hb))⟩
+
+theorem T3Eqv.tab (X : T3 𝕜) : T3Eqv X.tab X :=
+  ⟨rfl, rfl, rfl, fun _ _ _ hs ha hb => Env.t3_tab_f X hs ha hb⟩
+
+theorem T3Wf.congr {X Y : T3 𝕜} {qd qa qb : List Int} (h : T3Eqv X Y) (hY : T3Wf Y qd qa qb) : T3Wf X qd qa qb :=
+  ⟨h.d0.trans hY.d0, h.d1.trans hY.d1, h.d2.trans hY.d2, fun s a b hs ha hb hne =>
+    hY.sp s a b (by rw [← h.d0]; exact hs) (by rw [← h.d1]; exact ha) (by rw [← h.d2]; exact hb)
+      (by rw [← h.f s a b hs ha hb]; exact hne)⟩
+
+/-- the matricization handed to `qr` only depends on the in-range entries -/
+theorem flattenLeft_tab_congr {X Y : T3 𝕜} (h : T3Eqv X Y) : X.flattenLeft.tab = Y.flattenLeft.tab := by
+  refine Mat.tab_congr ?_ h.d2 ?_
+  · show X.d0 * X.d1 = Y.d0 * Y.d1
+    rw [h.d0, h.d1]
+  · intro r c hr hc
+    have hr' : r < X.d0 * X.d1 := hr
+    show X.f (r / X.d1) (r % X.d1) c = Y.f (r / Y.d1) (r % Y.d1) c
+    rw [← h.d1]
+    exact h.f _ _ _ (div_lt_of_lt_mul hr') (mod_lt_of_lt_mul hr') hc
 
 /-! ## well-formed chains -/
 
